@@ -151,7 +151,8 @@ class Runner:
         refs = []  # k -> concrete id
         outs, resolved, dumps = [], [], []
         known_ids = set()  # (bucket, id) seen in dumps
-        for op in ops:
+        quiet = self.with_dumps == "last"  # nothing is read between the writes: only the final state is observed
+        for n_op, op in enumerate(ops):
             k = op[0]
             rop = list(op)
             try:
@@ -227,7 +228,7 @@ class Runner:
                     out = ["ok"]
                 elif k == "replacelast":
                     try:
-                        last = h(op[1]).get(1)
+                        last = None if quiet else h(op[1]).get(1)
                         hint = last[0].id if last else None
                     except Exception:
                         hint = None
@@ -265,7 +266,7 @@ class Runner:
                     refs.append(None)
             outs.append(out)
             resolved.append(rop)
-            if self.with_dumps and k in WRITE_OPS:
+            if (self.with_dumps is True and k in WRITE_OPS) or (quiet and n_op == len(ops) - 1):
                 dumps.append(dump(store))
             else:
                 dumps.append(None)
@@ -327,7 +328,7 @@ def model_lines(backend, resolved, with_dumps=True):
             L.append(pre + f"count {hx(op[1])} {p_opt(op[2])} {p_opt(op[3])}")
         li = len(L) - 1
         di = None
-        if with_dumps and k in WRITE_OPS:
+        if (with_dumps is True and k in WRITE_OPS) or (with_dumps == "last" and op is resolved[-1]):
             L.append(pre + "dump")
             di = len(L) - 1
         idx.append((li, di))
